@@ -187,20 +187,30 @@ func H08() {
 	ll += ` }`
 	base := `module m { namespace "urn:m"; prefix m; typedef td { type string; default "t"; } leaf lt { type td; } ` + lf + ` ` + ll + ` list ls { key k; leaf k { type string; } max-elements 5; } container c { leaf other { type string; default "o"; } } leaf untouched { type int8; default "3"; } grouping g { leaf gl { type string; default "a"; } } container u1 { uses g; } container u2 { uses g; } }`
 	targets := []string{"lf", "ll", "ls", "c", "missing", "u1/m:gl", "lt"}
+	slim := param("slim") == 1 // pairs of deviate statements: two targets, no variants
+	if slim {
+		targets = targets[:2]
+	}
 	target := targets[symChoice(len(targets))]
 	nd := 1 + symChoice(param("d"))
+	if slim {
+		nd = param("d")
+	}
 	var devs []h08Dev
 	dtext := ""
 	for i := 0; i < nd; i++ {
 		d := h08Draw()
+		if nd > 1 && d.kind == "not-supported" {
+			assume(false) // RFC 7950 7.20.3: not-supported stands alone in its deviation statement
+		}
 		devs = append(devs, d)
 		dtext += d.text()
 	}
-	ignoreNS := symBool()
+	ignoreNS := !slim && symBool()
 	dstmt := `deviation /m:` + target + ` { ` + dtext + `} `
 	dev := `module d { namespace "urn:d"; prefix d; import m { prefix m; } ` + dstmt + `}`
 	devsub := ""
-	if symBool() {
+	if !slim && symBool() {
 		// the deviation statement is written in a submodule of the deviating module
 		dev = `module d { namespace "urn:d"; prefix d; include ds; }`
 		devsub = `submodule ds { belongs-to d { prefix d; } import m { prefix m; } ` + dstmt + `}`
